@@ -172,6 +172,38 @@ fn write_dec_u32<W: Write + ?Sized>(v: u32, negative: bool, width: usize, w: &mu
     Ok(())
 }
 
+/// 64-bit integers: the 32-bit routine when the value fits, else 64-bit division by 10
+fn write_dec_u64<W: Write + ?Sized>(v: u64, negative: bool, width: usize, w: &mut W) -> Result {
+    if v <= u32::MAX as u64 {
+        return write_dec_u32(v as u32, negative, width, w);
+    }
+    let mut v = v;
+    let mut tmp = [0u8; 20];
+    let mut n = 0;
+    loop {
+        tmp[n] = (v % 10) as u8;
+        n += 1;
+        v /= 10;
+        if v == 0 {
+            break;
+        }
+    }
+    if negative {
+        w.write_str("-")?;
+    }
+    let used = n + if negative { 1 } else { 0 };
+    let mut pad = width.saturating_sub(used);
+    while pad > 0 {
+        w.write_str("0")?;
+        pad -= 1;
+    }
+    while n > 0 {
+        n -= 1;
+        w.write_str(DIGIT_STR[tmp[n] as usize])?;
+    }
+    Ok(())
+}
+
 /// wide integers (not reached by the registered harnesses; kept for native completeness)
 fn write_dec_u128<W: Write + ?Sized>(mut v: u128, negative: bool, width: usize, w: &mut W) -> Result {
     let mut tmp = [0u8; 40];
@@ -248,10 +280,75 @@ macro_rules! wide_signed {
         }
     )*};
 }
+macro_rules! mid_unsigned {
+    ($($t:ty)*) => {$(
+        impl LiteDisplay for $t {
+            fn lite_fmt<W: Write + ?Sized>(&self, w: &mut W) -> Result { write_dec_u64(*self as u64, false, 0, w) }
+        }
+        impl LiteDecPad0 for $t {
+            fn lite_dec_pad0<W: Write + ?Sized>(&self, width: usize, w: &mut W) -> Result { write_dec_u64(*self as u64, false, width, w) }
+            fn lite_dec_len(&self) -> usize { dec_len_u128(*self as u128, false) }
+        }
+    )*};
+}
+macro_rules! mid_signed {
+    ($($t:ty)*) => {$(
+        impl LiteDisplay for $t {
+            fn lite_fmt<W: Write + ?Sized>(&self, w: &mut W) -> Result { write_dec_u64((*self as i64).unsigned_abs(), *self < 0, 0, w) }
+        }
+        impl LiteDecPad0 for $t {
+            fn lite_dec_pad0<W: Write + ?Sized>(&self, width: usize, w: &mut W) -> Result { write_dec_u64((*self as i64).unsigned_abs(), *self < 0, width, w) }
+            fn lite_dec_len(&self) -> usize { dec_len_u128((*self as i64).unsigned_abs() as u128, *self < 0) }
+        }
+    )*};
+}
 small_unsigned!(u8 u16 u32);
 small_signed!(i8 i16 i32);
-wide_unsigned!(u64 u128 usize);
-wide_signed!(i64 i128 isize);
+mid_unsigned!(u64 usize);
+mid_signed!(i64 isize);
+wide_unsigned!(u128);
+wide_signed!(i128);
+
+// ---- ghost: the text the last float `{}` produced, so that a harness can require that the code
+// under test wrote exactly those digits (and at most appended `.0`) ----
+pub mod ghost {
+    use super::FixedBuf;
+    use core::cell::UnsafeCell;
+
+    pub struct Cell(UnsafeCell<FixedBuf<512>>);
+    // SAFETY: harnesses and replay tests are single-threaded
+    unsafe impl Sync for Cell {}
+    pub static LAST_FLOAT: Cell = Cell(UnsafeCell::new(FixedBuf::new()));
+
+    pub fn reset() {
+        // SAFETY: see above
+        unsafe {
+            let g = &mut *LAST_FLOAT.0.get();
+            g.len = 0;
+            g.overflow = false;
+        }
+    }
+    pub fn push(s: &str) {
+        use core::fmt::Write as _;
+        // SAFETY: see above
+        unsafe {
+            let _ = (*LAST_FLOAT.0.get()).write_str(s);
+        }
+    }
+    pub fn last_float() -> &'static [u8] {
+        // SAFETY: see above
+        unsafe { (*LAST_FLOAT.0.get()).as_slice() }
+    }
+}
+
+/// writes to `w` and records in the ghost
+struct Tee<'a, W: Write + ?Sized>(&'a mut W);
+impl<W: Write + ?Sized> Write for Tee<'_, W> {
+    fn write_str(&mut self, s: &str) -> Result {
+        ghost::push(s);
+        self.0.write_str(s)
+    }
+}
 
 // ---- floats: real Display natively, contract stub M4 under Kani ---------------------------------
 
@@ -259,7 +356,11 @@ wide_signed!(i64 i128 isize);
 macro_rules! float_native {
     ($($t:ty)*) => {$(
         impl LiteDisplay for $t {
-            fn lite_fmt<W: Write + ?Sized>(&self, w: &mut W) -> Result { core::write!(w, "{}", self) }
+            fn lite_fmt<W: Write + ?Sized>(&self, w: &mut W) -> Result {
+                ghost::reset();
+                let mut w = Tee(w);
+                core::write!(w, "{}", self)
+            }
         }
     )*};
 }
@@ -274,6 +375,8 @@ macro_rules! float_contract {
     ($($t:ty)*) => {$(
         impl LiteDisplay for $t {
             fn lite_fmt<W: Write + ?Sized>(&self, w: &mut W) -> Result {
+                ghost::reset();
+                let w = &mut Tee(w);
                 let x = *self;
                 if x.is_nan() {
                     return w.write_str("NaN");
